@@ -3,9 +3,9 @@ NOTES = ("Contract-based deductive verification: Verus on functions extracted me
          "Kani/CBMC on the real crates (scratch copy + add-only cfg(kani) overlay). exit 2 = undecided (lost anchor, "
          "timeout, unsupported construct), never a VIOLATION. See DESIGN.md.")
 ENGINES = [
-    {"name": "E1-verus", "path": "engine/rsx.py, engine/verus.py, units/, contracts/", "serves_properties": ["C01", "C03", "C06", "C16"],
+    {"name": "E1-verus", "path": "engine/rsx.py, engine/verus.py, units/, contracts/", "serves_properties": ["C01", "C03", "C06", "C16", "C17"],
      "kind_free_text": "mechanical extraction + spec splicing -> single-file Verus (z3); unbounded proofs"},
-    {"name": "E2-kani", "path": "engine/overlay.py, contracts/*/kani*.rs", "serves_properties": ["C03", "C07", "C11", "C15", "C20"],
+    {"name": "E2-kani", "path": "engine/overlay.py, contracts/*/kani*.rs", "serves_properties": ["C02", "C03", "C06", "C07", "C11", "C14", "C15", "C19", "C20"],
      "kind_free_text": "cargo kani (CBMC) on a scratch copy of the real crates with an add-only cfg(kani) overlay"},
 ]
 PENDING = "check not built yet (framework under construction; see DESIGN.md section 5 for the planned decision)"
@@ -33,6 +33,38 @@ CHECKS = {
         "design_ref": "DESIGN.md 5 (C16)",
         "note": "Call depth is the proxy for stack use (frame sizes are not measured). Trusted: Verus termination rule, U-ITER/U-ESC stand-ins. NOT covered: graph_rec (SPARQL), populate_list/mark_list_node (JSON-LD), Turtle pretty printer, parsers.",
         "technique": "deductive verification (Verus termination obligations: no recursion without decreases; loop decreases) of mechanically extracted code",
+    },
+    "C02": {
+        "engine": "E2-kani",
+        "category": "model_checking",
+        "text": "Bounded Kani harnesses on the real default Term::eq / Term::cmp / Term::hash, LanguageTag Eq/Ord/Hash and NsTerm::eq against the term's identity key (kind rank, strings, tag folded to lower case): eq is the key equality, cmp is the key order (blank < IRI < literal < variable), Equal exactly for equal terms, antisymmetric, transitive; equal terms feed identical bytes to any hasher; NsTerm's prefix+suffix comparison agrees with whole-IRI equality at every split point.",
+        "design_ref": "DESIGN.md 5 (C02)",
+        "note": "Bounded: one-byte components over {a, b, B}, atoms only (no quoted triples). Trusted: Kani/CBMC, validator stubs. NOT covered: conversions (from_term / into_term ...), sophia_term / rio / jsonld / sparql term types, longer or non-ASCII strings.",
+        "technique": "Kani proof harnesses (contracts as assume/assert against a reference key function), bounded",
+    },
+    "C14": {
+        "engine": "E2-kani",
+        "category": "proof",
+        "text": "Kani decides, per kind triple over {NativeInt, Float, Double} and over the full machine domain of the operands (non-NaN, loop-free harnesses), whether the numeric comparison used by ORDER BY (PartialOrd for &SparqlNumber) is a total preorder. It is on the exact fragment (|int| <= 2^24) for every triple, and on the full domain for the 16 triples without lossy promotion; the 4 triples mixing integers with float AND double fail and are listed as known findings with concrete witnesses replayed through the SPARQL engine.",
+        "design_ref": "DESIGN.md 5 (C14), 8.3",
+        "note": "Trusted: Kani/CBMC IEEE-754 semantics. NOT covered: the 7 kind triples with two NativeInt operands (CBMC > 40 min: symbolic BigInt), NaN, BigInt/BigDecimal, strings/booleans/dateTimes, the Term::cmp fallback, cmp_bindings_with / sort_unstable_by.",
+        "technique": "Kani proof harnesses over full-domain symbolic operands, one per variant triple (complete for the fragment), known findings matched by replayed witness",
+    },
+    "C17": {
+        "engine": "E1-verus",
+        "category": "proof",
+        "text": "Verus proves for every base, IRI and heuristic candidate that Relativizer::relativize (real function text, extracted each run) returns Some(r) only if r is a valid IRI reference and BaseIri::resolve(base, r) returned exactly the IRI: the function's resolve-and-compare guard makes the soundness half of the property hold whatever the prefix heuristic computes.",
+        "design_ref": "DESIGN.md 5 (C17), 8.3",
+        "note": "Trusted: Verus/z3; BaseIri::resolve (oxiri) as the definition of RFC 3986 resolution; IriRef::new as the validity test. NOT covered: the parent-step bound, completeness (IRIs equal to the base up to query/fragment are always relativised), Relativizer::new.",
+        "technique": "deductive verification (Verus postcondition over an abstracted callee) of mechanically extracted code",
+    },
+    "C19": {
+        "engine": "E2-kani",
+        "category": "model_checking",
+        "text": "std::fs::read is given an assumed contract with the precondition confined(path, configured directory); a Kani stub asserts it at the call site inside LocalLoader::get. Checked for representative concrete IRIs of each escape class (leading '/', '..', inner '../..', './' and empty segments, fragment, foreign namespace); servable IRIs must still reach the read.",
+        "design_ref": "DESIGN.md 5 (C19), 8.3",
+        "note": "Bounded: concrete representative IRIs only (CBMC does not finish on symbolic suffixes: std::path parsing, measured 50 min for 3 symbolic bytes). Trusted: Kani/CBMC, validator stubs, LocalLoader built without LocalLoader::check. NOT covered: nested/overlapping namespaces, extension retry, symlinks.",
+        "technique": "Kani: callee (std::fs::read) replaced by a stub carrying its precondition, asserted at the real call site; bounded to representative inputs",
     },
     "C07": {
         "engine": "E2-kani",
@@ -75,7 +107,7 @@ CHECKS = {
         "technique": "deductive verification (Verus pre/postconditions, loop invariants, lemmas) of mechanically extracted code",
     },
 }
-NOT_APPLICABLE = {p: PENDING for p in ["C02", "C14", "C17", "C19"]}
+NOT_APPLICABLE = {}
 NOT_APPLICABLE.update({
     "C04": "Turtle/TriG pretty-printer and Rio formatter: 800 lines of shape heuristics over HashMap/BTreeMap of GAT terms plus five regexes, and the other half of the property is Rio's parser; no function in the chain has a contract expressible in Verus' subset (regex, GATs, trait-object iterators) and Kani cannot reach the regexes (compiler ICE) - stubbing them removes the decisions the property is about",
     "C05": "'equal canonical output <=> isomorphic input' is a meta-theorem about RDFC-1.0 under collision-freeness of SHA-256, quantified over pairs of datasets and all label bijections; it is not a pre/postcondition of any function. The contractible kernels are checked under C06",
